@@ -94,6 +94,15 @@ var c12Actions = []struct {
 	{"range-kind", "range fnil }}x{{ end", true, ""},
 	{"range-kind", "range fstr }}x{{ end", true, ""},
 	{"range-kind", "range i, v := fch }}x{{ end", true, ""},
+	// statements that end on a later line than they start: the line is the one of the opening action
+	{"range-kind", "range fnum }}\nrow\n{{ end", true, ""},
+	{"range-kind", "range fnil }}\nrow\n{{ else }}\nnone\n{{ end", true, ""},
+	{"range-kind", "range i, v := fch }}\n\nrow\n\n{{ end", true, ""},
+	{"unknown-identifier", "if noSuchVariable }}\nyes\n{{ else }}\nno\n{{ end", true, ""},
+	{"unknown-identifier", "if hv := noSuchVariable; hv }}\nyes\n{{ end", true, ""},
+	{"unknown-field", "range fuser.NoSuchField }}\nrow\n{{ end", true, ""},
+	{"unknown-identifier", "block mlb(p=noSuchVariable) }}\nbody\n{{ end", true, ""},
+	{"unknown-template", "include \"/no/such/template.jet\" }}\n{{ fnum", true, ""},
 	{"yield-arg-without-value", "yield pblock(p)", true, ""},
 	{"yield-arg-without-value", "yield nblock(q)", true, ""},
 	{"slot-without-pipe", "upper(_)", true, ""},
